@@ -69,6 +69,8 @@ def one(job):
         for pid in pids:
             r = subprocess.run([sys.executable, "/verif/check", pid, "--repo", d], capture_output=True, text=True, env=dict(os.environ, VERIF_EVIDENCE_DIR=d + "/ev"))
             res[pid] = r.returncode
+            if r.returncode == 2:
+                res["_msg"] = next((l for l in r.stdout.splitlines() if l.startswith("ANALYSIS")), "")[:260]
             if r.returncode == 1: break
         return idx, res
     finally:
@@ -98,9 +100,10 @@ def main():
     surv = []
     with ThreadPoolExecutor(max_workers=6) as ex:
         for idx, res in ex.map(one, jobs):
+            msg = res.pop("_msg", "")
             fired = [p for p, c in res.items() if c == 1]
             tag = "KILLED by " + fired[0] if fired else ("SURVIVED" + (" (unknown: " + ",".join(p for p, c in res.items() if c == 2) + ")" if any(c == 2 for c in res.values()) else ""))
-            print(f"{tag:28s} {descr[idx]}", flush=True)
+            print(f"{tag:28s} {descr[idx]}" + (f"\n      {msg}" if msg and not fired else ""), flush=True)
             if not fired: surv.append(descr[idx])
     print(f"--- {len(jobs)} mutants, {len(surv)} survivors")
 main()
